@@ -16,6 +16,10 @@ from ..cfg import build_cfg
 from ..facts import MODEL_CLASSES, readable_attrs, ctor_keywords
 from ..fold import Folder, format_tables
 from ..model import AnalysisError, unparse, walk_no_nested
+from ..astutil import atoms_at
+from ..dataflow import private_closure
+from ..logic import known
+from ..symtext import Expander, effect_calls, ordered_iterations, strip_order_keeping
 from .c02 import falsy_set_attributes
 
 DECIDED = [
@@ -70,140 +74,180 @@ def run(prog, rep):
             raise AnalysisError("RDF writer/reader function for %s vanished" % fname)
         rep.saw_function(sf)
         rep.saw_function(pf)
-        loops = [n for n in walk_no_nested(sf.node) if isinstance(n, ast.For) and unparse(n.iter).endswith(".rdf_map_keys")]
-        fmt_ok = False
-        if len(loops) == 1:
-            base = loops[0].iter.value
-            defs = local_assignments(sf.node, base.id) if isinstance(base, ast.Name) else []
-            fmt_ok = len(defs) == 1 and unparse(defs[0]) == "%s.format()" % sf.params[1]
+        sx = Expander(sf)
+        loops = [n for n in walk_no_nested(sf.node) if isinstance(n, ast.For) and sx.text(n.iter).endswith(".rdf_map_keys")]
+        fmt_ok = len(loops) == 1 and sx.text(loops[0].iter) == "%s.format().rdf_map_keys" % sf.params[1]
         rep.check(fmt_ok, "TAB-8", "%s iterates the object's own rdf table" % sf.name, "for k in <obj>.format().rdf_map_keys",
                   "%s does not iterate <object>.format().rdf_map_keys" % sf.name, sf.where)
-        rl = [n for n in walk_no_nested(pf.node) if isinstance(n, ast.For) and unparse(n.iter) == "%s.rdf_map_items" % fname]
+        px = Expander(pf)
+        rl = [n for n in walk_no_nested(pf.node) if isinstance(n, ast.For) and px.text(n.iter) == "%s.rdf_map_items" % fname]
         rep.check(len(rl) == 1, "TAB-8", "%s iterates %s.rdf_map_items" % (pf.name, fname), "ok",
                   "%s does not iterate the %s table" % (pf.name, fname), pf.where, witness="attributes of another kind are read / own ones missed")
 
     # ---------------------------------------------------------------- PROV-7
-    rep.rule("PROV-7", "save_odml_list: node = URIRef(ODML_NS + str(item.id)); graph.add((parent, predicate, node)); the same node and "
-                       "item go to save_section / save_property, dispatched on the item's format name; save_document: node from doc.id "
-                       "unless given, typed with fmt.rdf_type and linked by (hub_root, hasDocument, node) on every path; hub_root is the "
-                       "constant ODML_NS.Hub; every attribute triple has the current node as subject")
+    rep.rule("PROV-7", "triples and calls are read with locals expanded and private helpers inlined. save_odml_list adds (parent, predicate, "
+                       "URIRef(ODML_NS + str(item.id))) for the loop item and passes that item and that node to save_section / save_property "
+                       "under a test on Section.name / Property.name; save_document: node from doc.id unless given, typed with fmt.rdf_type "
+                       "and linked by (hub_root, hasDocument, node) on every path; hub_root is the constant ODML_NS.Hub; every attribute "
+                       "triple and every child call has the function's own node as subject / parent")
     sl = W.lookup_method("save_odml_list")
     rep.saw_function(sl)
-    lp = [n for n in walk_no_nested(sl.node) if isinstance(n, ast.For)]
-    ok = len(lp) == 1 and unparse(lp[0].iter) == sl.params[3]
-    if ok:
-        item = unparse(lp[0].target)
-        nodes = [n for n in lp[0].body if isinstance(n, ast.Assign) and unparse(n.value) == "URIRef(ODML_NS + str(%s.id))" % item]
-        ok = len(nodes) == 1
-        if ok:
-            nv = unparse(nodes[0].targets[0])
-            adds = [unparse(c) for c in calls_in(lp[0]) if call_name(c) == "self.graph.add"]
-            ok = "self.graph.add((%s, %s, %s))" % (sl.params[1], sl.params[2], nv) in adds
-            disp = {}
-            for n in ast.walk(lp[0]):
-                if isinstance(n, ast.If):
-                    for c in calls_in(ast.Module(body=n.body, type_ignores=[])):
-                        if call_name(c) in ("self.save_section", "self.save_property"):
-                            disp[call_name(c)] = (unparse(n.test), [unparse(a) for a in c.args])
-            ok = ok and disp.get("self.save_section", ("", []))[1] == [item, nv] and "Section.name" in disp["self.save_section"][0] \
-                and disp.get("self.save_property", ("", []))[1] == [item, nv] and "Property.name" in disp["self.save_property"][0]
+    me = sl.params[0]
+    item = "EACH(%s)" % sl.params[3]
+    nodeexpr = "URIRef(ODML_NS + str(%s.id))" % item
+    tr = triples(prog, sl)
+    ok = (sl.params[1], sl.params[2], nodeexpr) in [t[:3] for t in tr]
+    disp = {}
+    for eff in effect_calls(prog, sl, lambda c: call_name(c) in ("%s.save_section" % me, "%s.save_property" % me)):
+        guards = " ".join(t for t, p in eff.guards() if p)
+        disp[call_name(eff.call).split(".")[-1]] = ([unparse(a) for a in eff.call.args], guards)
+    ok = ok and disp.get("save_section", ([], ""))[0] == [item, nodeexpr] and "Section.name" in disp["save_section"][1] \
+        and disp.get("save_property", ([], ""))[0] == [item, nodeexpr] and "Property.name" in disp["save_property"][1]
     rep.check(ok, "PROV-7", "save_odml_list names, links and fills the same node", "ok",
-              "save_odml_list does not (name the node by the item's id, link exactly that node from the parent, pass item and node on)", sl.where,
+              "save_odml_list does not (name the node by the item's id, link exactly that node from the parent, pass item and node on): "
+              "triples %s, dispatch %s" % ([t[:3] for t in tr], disp), sl.where,
               witness="a Section's attributes end up on another node / the node is not reachable from its parent")
     sd = W.lookup_method("save_document")
     g = build_cfg(sd)
+    dx = Expander(sd, g)
+    me = sd.params[0]
     cn = sd.params[2]
-    name_ok = any(isinstance(n, ast.Assign) and unparse(n.targets[0]) == cn and unparse(n.value) == "URIRef(ODML_NS + str(%s.id))" % sd.params[1]
+    name_ok = any(isinstance(n, ast.Assign) and unparse(n.targets[0]) == cn and dx.text(n.value) == "URIRef(ODML_NS + str(%s.id))" % sd.params[1]
                   for n in walk_no_nested(sd.node))
     rep.check(name_ok, "PROV-7", "save_document names the node by the document id", "ok", "the Document node is not URIRef(ODML_NS + str(doc.id))", sd.where,
               witness="two exports of one document give different nodes / ids are lost on import")
-    for want, what in (("self.graph.add((%s, RDF.type, URIRef(fmt.rdf_type)))" % cn, "typed as odml:Document"),
-                       ("self.graph.add((self.hub_root, ODML_NS.hasDocument, %s))" % cn, "linked from the Hub")):
-        nodes = [n for n in g.nodes if n.kind == "stmt" and unparse(n.ast) == want]
+    dtr = triples(prog, sd)
+    for want, what in (((cn, "RDF.type", "URIRef(%s.format().rdf_type)" % sd.params[1]), "typed as odml:Document"),
+                       (("%s.hub_root" % me, "ODML_NS.hasDocument", cn), "linked from the Hub")):
+        nodes = [t[3] for t in dtr if t[:3] == want]
         ok = len(nodes) == 1 and all(g.dominates(nodes[0], p) for _, p in g.exit.pred)
         rep.check(ok, "PROV-7", "save_document: node %s on every path" % what, "ok", "the Document node is not %s on every path" % what, sd.where,
                   witness="an exported document is missing from the import (not reachable from the Hub)")
     cv = W.lookup_method("convert_to_rdf")
-    hub = [n for n in walk_no_nested(cv.node) if isinstance(n, ast.Assign) and unparse(n.targets[0]) == "self.hub_root"]
-    rep.check(len(hub) == 1 and unparse(hub[0].value) == "URIRef(ODML_NS.Hub)", "PROV-7", "the Hub is the constant ODML_NS.Hub", "ok",
+    hub = [n for n in walk_no_nested(cv.node) if isinstance(n, ast.Assign) and unparse(n.targets[0]) == "%s.hub_root" % cv.params[0]]
+    rep.check(len(hub) == 1 and Expander(cv).text(hub[0].value) == "URIRef(ODML_NS.Hub)", "PROV-7", "the Hub is the constant ODML_NS.Hub", "ok",
               "hub_root is not URIRef(ODML_NS.Hub)", cv.where, witness="several hubs / reader does not find the documents")
     to = Rd.lookup_method("to_odml")
-    rep.check("subject=URIRef(ODML_NS.Hub)" in unparse(to.node) and "predicate=ODML_NS.hasDocument" in unparse(to.node), "PROV-7",
-              "reader starts from the same Hub and predicate", "ok", "RDFReader.to_odml does not start from (ODML_NS.Hub, hasDocument)", to.where)
+    tox = Expander(to)
+    starts = [c for c in calls_in(to.node) if call_name(c).endswith(".graph.objects")]
+    good = any(any(k.arg == "subject" and tox.text(k.value) == "URIRef(ODML_NS.Hub)" for k in c.keywords) and
+               any(k.arg == "predicate" and tox.text(k.value) == "ODML_NS.hasDocument" for k in c.keywords) for c in starts)
+    rep.check(good, "PROV-7", "reader starts from the same Hub and predicate", "ok", "RDFReader.to_odml does not start from (ODML_NS.Hub, hasDocument)", to.where)
     for fname in ("Document", "Section", "Property"):
         sf = W.lookup_method(SAVE[fname])
+        me = sf.params[0]
         node_param = sf.params[2]
-        for c in calls_in(sf.node):
-            if call_name(c) == "self.graph.add" and c.args and isinstance(c.args[0], ast.Tuple) and len(c.args[0].elts) == 3:
-                subj = unparse(c.args[0].elts[0])
-                pred = unparse(c.args[0].elts[1])
-                if pred in ("curr_pred",):
-                    rep.check(subj == node_param, "PROV-7", "%s attaches attributes to its own node" % sf.name, "ok",
-                              "%s adds an attribute triple with subject %s instead of %s" % (sf.name, subj, node_param), where(sf, c),
-                              witness="attributes of one object appear on another node")
-        subs = [c for c in calls_in(sf.node) if call_name(c) in ("self.save_odml_list", "self.save_odml_values", "self.save_repository_node")]
-        for c in subs:
-            rep.check(unparse(c.args[0]) == node_param, "PROV-7", "%s: %s under its own node" % (sf.name, call_name(c)[5:]), "ok",
-                      "%s passes %s as parent node" % (sf.name, unparse(c.args[0])), where(sf, c))
+        n_attr = 0
+        for s0, p0, o0, node, wf in triples(prog, sf):
+            if ".rdf_map(" in p0:
+                n_attr += 1
+                rep.check(s0 == node_param, "PROV-7", "%s attaches attributes to its own node" % sf.name, "ok",
+                          "%s adds an attribute triple with subject %s instead of %s" % (sf.name, s0, node_param), where(sf, node.ast),
+                          witness="attributes of one object appear on another node")
+        rep.floor("PROV-7", n_attr, 1, "attribute triples in %s" % sf.short)
+        for c, node, wf in effect_calls(prog, sf, lambda c, me=me: call_name(c) in tuple("%s.%s" % (me, x) for x in ("save_odml_list", "save_odml_values", "save_repository_node"))):
+            rep.check(unparse(c.args[0]) == node_param, "PROV-7", "%s: %s under its own node" % (sf.name, call_name(c).split(".")[-1]), "ok",
+                      "%s passes %s as parent node" % (sf.name, unparse(c.args[0])), where(sf, node.ast))
 
     # ---------------------------------------------------------------- PAIR-2
-    rep.rule("PAIR-2", "save_section: curr_type starts as fmt.rdf_type; it is replaced by a sub-class only inside `if self.rdf_subclassing` "
-                       "/ `if sub_sec`, and that block adds (URIRef(curr_type), RDFS.subClassOf, URIRef(fmt.rdf_type)); the node is typed "
-                       "with curr_type")
+    rep.rule("PAIR-2", "save_section types its node with URIRef(T); T is <sec>.format().rdf_type unless re-assigned; every re-assignment is "
+                       "reachable only with self.rdf_subclassing true, and a triple (URIRef(<new type>), RDFS.subClassOf, URIRef(<sec>.format().rdf_type)) "
+                       "is added after it on every path to the exit (helpers inlined); save_property types with the format's rdf_type")
     ss = W.lookup_method("save_section")
     g = build_cfg(ss)
-    assigns = [n for n in g.nodes if n.kind == "stmt" and isinstance(n.ast, ast.Assign) and unparse(n.ast.targets[0]) == "curr_type"]
-    rep.floor("PAIR-2", len(assigns), 1, "assignments of curr_type")
-    for n in assigns:
-        v = unparse(n.ast.value)
-        if v == "fmt.rdf_type":
-            rep.ok("PAIR-2", "save_section: default type", "fmt.rdf_type", where(ss, n.ast))
-            continue
-        conds = [(unparse(t), pol) for t, pol, _ in g.dominating_conditions(n)]
-        under_switch = ("self.rdf_subclassing", "true") in conds
-        decl = [m for m in g.nodes if m.kind == "stmt" and "RDFS.subClassOf" in unparse(m.ast) and g.dominates(n, m)
-                and all(g.dominates(m, p) or not g.dominates(n, p) for _, p in g.exit.pred)]
-        decl_ok = any(unparse(m.ast) == "self.graph.add((URIRef(curr_type), RDFS.subClassOf, URIRef(fmt.rdf_type)))" for m in decl)
-        rep.check(under_switch, "PAIR-2", "save_section: sub-class only with the switch on", str(conds),
-                  "curr_type is replaced by %s outside `if self.rdf_subclassing`" % v, where(ss, n.ast),
-                  witness="rdf_subclassing=False still exports sub-class types")
-        rep.check(decl_ok, "PAIR-2", "save_section: sub-class declared in the graph", "subClassOf triple on the same path",
-                  "a node may be typed with sub-class %s without a (sub, rdfs:subClassOf, odml:Section) triple on that path" % v, where(ss, n.ast),
-                  witness="the importer / a reasoner does not recognise the node as a Section")
-    typed = [n for n in g.nodes if n.kind == "stmt" and unparse(n.ast) == "self.graph.add((curr_node, RDF.type, URIRef(curr_type)))"]
-    rep.check(len(typed) == 1 and all(g.dominates(typed[0], p) for _, p in g.exit.pred), "PAIR-2", "save_section types the node with curr_type", "ok",
-              "the Section node is not typed with curr_type on every path", ss.where)
+    x = Expander(ss, g)
+    me, sec, cnode = ss.params[0], ss.params[1], ss.params[2]
+    base_type = "%s.format().rdf_type" % sec
+    str_ = triples(prog, ss)
+    typed = [t for t in str_ if t[0] == cnode and t[1] == "RDF.type"]
+    rep.check(len(typed) == 1 and all(g.dominates(typed[0][3], p) for _, p in g.exit.pred), "PAIR-2", "save_section types the node on every path", "ok",
+              "the Section node is not typed exactly once on every path: %s" % [t[:3] for t in typed], ss.where)
+    tvar = None
+    if len(typed) == 1:
+        o = typed[0][2]
+        if o == "URIRef(%s)" % base_type:
+            rep.ok("PAIR-2", "save_section: node typed with the format's rdf_type", o, ss.where)
+        elif o.startswith("URIRef(") and o[7:-1].isidentifier():
+            tvar = o[7:-1]
+        else:
+            rep.fail("PAIR-2", "save_section|type-expression", "the Section node is typed with %s" % o, ss.where)
+    if tvar is not None:
+        assigns = [n for n in g.nodes if n.kind == "stmt" and isinstance(n.ast, ast.Assign) and unparse(n.ast.targets[0]) == tvar]
+        rep.floor("PAIR-2", len(assigns), 1, "assignments of the type variable")
+        for n in assigns:
+            v = x.text(n.ast.value, n)
+            if v == base_type:
+                rep.ok("PAIR-2", "save_section: default type", base_type, where(ss, n.ast))
+                continue
+            under_switch = known(g, n, lambda lf, me=me: "SW" if unparse(lf) == "%s.rdf_subclassing" % me else None, lambda a: a["SW"], ["SW"])
+            want = ("URIRef(%s)" % v, "RDFS.subClassOf", "URIRef(%s)" % base_type)
+            decl = [t[3] for t in str_ if t[:3] == want]
+            decl_ok = any((m.id == n.id or g.dominates(n, m)) and all(g.dominates(m, p) or not g.dominates(n, p) for _, p in g.exit.pred) for m in decl)
+            rep.check(under_switch, "PAIR-2", "save_section: sub-class only with the switch on", "every path to the re-assignment knows rdf_subclassing",
+                      "the node type is replaced by %s on a path where self.rdf_subclassing may be false" % v, where(ss, n.ast),
+                      witness="rdf_subclassing=False still exports sub-class types")
+            rep.check(decl_ok, "PAIR-2", "save_section: sub-class declared in the graph", "subClassOf triple on the same path",
+                      "a node may be typed with sub-class %s without a (sub, rdfs:subClassOf, odml:Section) triple on that path (triples: %s)"
+                      % (v, [t[:3] for t in str_ if "subClassOf" in t[1]]), where(ss, n.ast),
+                      witness="the importer / a reasoner does not recognise the node as a Section")
     sp = W.lookup_method("save_property")
-    rep.check("self.graph.add((curr_node, RDF.type, URIRef(fmt.rdf_type)))" in unparse(sp.node), "PAIR-2", "save_property types the node", "ok",
+    ptr = triples(prog, sp)
+    rep.check((sp.params[2], "RDF.type", "URIRef(%s.format().rdf_type)" % sp.params[1]) in [t[:3] for t in ptr], "PAIR-2", "save_property types the node", "ok",
               "the Property node is not typed with fmt.rdf_type", sp.where)
 
     # ----------------------------------------------------------------- SEQ-1
-    rep.rule("SEQ-1", "save_odml_values: seq = URIRef(ODML_NS + str(uuid.uuid4())) (fresh per call, so a second conversion never appends "
-                      "to an existing sequence); (seq, rdf:type, rdf:Seq) and (parent, predicate, seq) are added; both rdflib branches "
-                      "add the values in iteration order of `values`; parse_property reads them with Seq(graph=..., subject=elems[0])")
+    rep.rule("SEQ-1", "save_odml_values: the sequence node S is URIRef(ODML_NS + str(uuid.uuid4())) (fresh per call, so a second conversion never "
+                      "appends to an existing sequence); (S, rdf:type, rdf:Seq) and (parent, predicate, S) are added; every iteration over "
+                      "`values` is order keeping (for / enumerate / comprehension, never sorted/reversed/set); the rdflib>=6 branch hands "
+                      "CollSeq a list built as Literal(v) per value in that order; the legacy branch adds (S, rdf:_<n>, Literal(v)) with n "
+                      "counting from 1; parse_property reads the members through rdflib's Seq(graph=..., subject=...) and toPython()")
     sv = W.lookup_method("save_odml_values")
     rep.saw_function(sv)
-    seqs = local_assignments(sv.node, "seq")
-    rep.check(len(seqs) == 1 and unparse(seqs[0]) == "URIRef(ODML_NS + str(uuid.uuid4()))", "SEQ-1", "fresh sequence node per call", "uuid4",
-              "the value sequence node is %s: repeated conversions by one writer append to the same sequence" % [unparse(x) for x in seqs], sv.where,
+    vx = Expander(sv)
+    parent, pred, values = sv.params[1], sv.params[2], sv.params[3]
+    vtr = triples(prog, sv)
+    seqnodes = sorted(set(t[0] for t in vtr if t[1] == "RDF.type" and t[2] == "RDF.Seq"))
+    fresh = len(seqnodes) == 1 and seqnodes[0] == "URIRef(ODML_NS + str(uuid.uuid4()))"
+    rep.check(fresh, "SEQ-1", "fresh sequence node per call", "uuid4",
+              "the value sequence node is %s: repeated conversions by one writer append to the same sequence" % seqnodes, sv.where,
               witness="get_rdf_str() twice on one RDFWriter: values doubled on import")
-    txt = unparse(sv.node)
-    rep.check("self.graph.add((seq, RDF.type, RDF.Seq))" in txt and "self.graph.add((%s, %s, seq))" % (sv.params[1], sv.params[2]) in txt, "SEQ-1",
-              "sequence typed rdf:Seq and linked from the Property", "ok", "the sequence node is not typed rdf:Seq / not linked from the parent node", sv.where)
-    loops = [n for n in walk_no_nested(sv.node) if isinstance(n, ast.For)]
-    rep.check(len(loops) == 2 and all(unparse(n.iter) == sv.params[3] for n in loops), "SEQ-1", "both branches iterate `values` in order", "ok",
-              "a branch does not iterate the values in list order (sorted/reversed/set?)", sv.where, witness="values come back in another order")
-    rep.check("seq_list.append(Literal(curr_val))" in txt and "CollSeq(self.graph, seq, seq_list)" in txt, "SEQ-1", "rdflib>=6 branch builds the Seq from the list", "ok",
+    S0 = seqnodes[0] if seqnodes else "?"
+    rep.check((parent, pred, S0) in [t[:3] for t in vtr], "SEQ-1", "sequence typed rdf:Seq and linked from the Property", "ok",
+              "the sequence node is not typed rdf:Seq / not linked from the parent node", sv.where)
+    okit, badit = ordered_iterations(sv.node, values)
+    rep.check(len(okit) >= 2 and not badit, "SEQ-1", "both branches iterate `values` in order", "%d order keeping iterations" % len(okit),
+              "a branch does not iterate the values in list order (%s)" % [unparse(getattr(b, "iter", b))[:40] for b in badit], sv.where,
+              witness="values come back in another order")
+    colls = [c for c, node, wf in effect_calls(prog, sv, lambda c: call_name(c).split(".")[-1] in ("CollSeq", "Seq", "Collection"))]
+    good = False
+    for c in colls:
+        if len(c.args) == 3 and unparse(c.args[1]) == S0:
+            lst = unparse(c.args[2])
+            if lst == "[Literal(curr_val) for curr_val in %s]" % values or _is_literal_comp(c.args[2], values):
+                good = True
+            elif isinstance(c.args[2], ast.Name):
+                good = _append_loop_builds(sv.node, c.args[2].id, values)
+    rep.check(good, "SEQ-1", "rdflib>=6 branch builds the Seq from the list", "ok",
               "the rdflib>=6 branch no longer builds CollSeq(graph, seq, [Literal(v) for v in values])", sv.where)
-    rep.check("counter = counter + 1" in txt or "counter += 1" in txt, "SEQ-1", "legacy branch numbers the members", "ok",
-              "the legacy branch does not increment the member counter", sv.where)
+    legacy = [t for t in vtr if t[0] == S0 and t[2] == "Literal(EACH(%s))" % values]
+    numbered = False
+    for t in legacy:
+        if "INDEX" in t[1]:
+            numbered = _enumerate_from_one(sv.node, values)
+        else:
+            numbered = numbered or _manual_counter(sv.node, values)
+    rep.check(bool(legacy) and numbered, "SEQ-1", "legacy branch numbers the members", "ok",
+              "the legacy branch does not add (seq, rdf:_n, Literal(value)) with n counting from 1 (triples %s)" % [t[:3] for t in vtr], sv.where)
     pp = Rd.lookup_method("parse_property")
-    ptxt = unparse(pp.node)
-    n_seq = ptxt.count("Seq(graph=self.graph, subject=elems[0])")
-    rep.check(n_seq >= 2 and "sorted(" not in ptxt, "SEQ-1", "reader iterates rdflib's Seq", "ok",
+    seq_calls = effect_calls(prog, pp, lambda c: call_name(c) == "Seq")
+    n_seq = sum(1 for c, node, wf in seq_calls if any(k.arg == "graph" for k in c.keywords) and any(k.arg == "subject" for k in c.keywords))
+    closure = private_closure(pp)
+    sorts = [c for h in closure for c in calls_in(h.node) if call_name(c) in ("sorted", "reversed", "set") or call_name(c).endswith(".sort")]
+    rep.check(n_seq >= 1 and not sorts, "SEQ-1", "reader iterates rdflib's Seq", "ok",
               "parse_property does not read the values through Seq(graph, subject) (or sorts them): rdf:_10 sorts before rdf:_2 as text", pp.where,
               witness="a Property with ten or more values comes back shuffled")
-    rep.check("seq_item.toPython()" in ptxt, "SEQ-1", "reader converts literals with toPython()", "ok", "values are not converted with toPython()", pp.where)
+    conv = [c for h in closure for c in calls_in(h.node) if isinstance(c.func, ast.Attribute) and c.func.attr == "toPython"]
+    rep.check(len(conv) >= 2, "SEQ-1", "reader converts literals with toPython()", "ok", "values are not converted with toPython()", pp.where)
 
     # --------------------------------------------------------------- TRUTH-3
     rep.rule("TRUTH-3", "the skip guard of the three save_* loops may use truthiness of the attribute value only for formats none of "
@@ -237,3 +281,74 @@ def run(prog, rep):
         rep.check("%s.split('#', 1)[1]" % uri in unparse(pf.node), "RID-1", "%s recovers the id from the URI" % pf.name, "ok",
                   "%s does not take the id from %s.split('#', 1)[1]" % (pf.name, uri), pf.where, witness="imported ids differ from the exported ones")
     rep.assume("rdflib's Graph/Seq/serialisers behave as documented")
+
+
+def triples(prog, f):
+    """[(subject, predicate, object, node, func)] of every <x>.graph.add((s, p, o)) in f and its private helpers (expanded texts)."""
+    out = []
+    for c, node, wf in effect_calls(prog, f, lambda c: call_name(c).endswith(".graph.add") and len(c.args) == 1
+                                    and isinstance(c.args[0], ast.Tuple) and len(c.args[0].elts) == 3):
+        t = c.args[0].elts
+        out.append((unparse(t[0]), unparse(t[1]), unparse(t[2]), node, wf))
+    return out
+
+
+def _is_literal_comp(e, values):
+    if not (isinstance(e, ast.ListComp) and len(e.generators) == 1 and not e.generators[0].ifs):
+        return False
+    gen = e.generators[0]
+    base, _ = strip_order_keeping(gen.iter)
+    return isinstance(base, ast.Name) and base.id == values and isinstance(gen.target, ast.Name) \
+        and unparse(e.elt) == "Literal(%s)" % gen.target.id
+
+
+def _append_loop_builds(fnode, lst, values):
+    """lst = [] ; for v in values: lst.append(Literal(v))"""
+    inits = [n for n in ast.walk(fnode) if isinstance(n, ast.Assign) and unparse(n.targets[0]) == lst]
+    if not (len(inits) == 1 and isinstance(inits[0].value, ast.List) and not inits[0].value.elts):
+        return False
+    for loop in ast.walk(fnode):
+        if isinstance(loop, ast.For) and isinstance(loop.target, ast.Name):
+            base, _ = strip_order_keeping(loop.iter)
+            if isinstance(base, ast.Name) and base.id == values:
+                apps = [c for c in calls_in(loop) if unparse(c.func) == "%s.append" % lst]
+                if len(apps) == 1 and unparse(apps[0].args[0]) == "Literal(%s)" % loop.target.id:
+                    others = [c for c in calls_in(fnode) if isinstance(c.func, ast.Attribute) and unparse(c.func.value) == lst
+                              and c.func.attr in ("insert", "sort", "reverse", "extend", "remove", "pop") or
+                              (unparse(c.func) == "%s.append" % lst and c is not apps[0])]
+                    return not others
+    return False
+
+
+def _enumerate_from_one(fnode, values):
+    for loop in ast.walk(fnode):
+        if isinstance(loop, ast.For) and isinstance(loop.iter, ast.Call) and unparse(loop.iter.func) == "enumerate" and loop.iter.args \
+                and unparse(loop.iter.args[0]) == values:
+            start = loop.iter.args[1] if len(loop.iter.args) > 1 else next((k.value for k in loop.iter.keywords if k.arg == "start"), None)
+            if isinstance(start, ast.Constant) and start.value == 1:
+                return True
+    return False
+
+
+def _manual_counter(fnode, values):
+    """counter = 1 before a loop over values whose body uses it in the predicate and increments it by one, once"""
+    for loop in ast.walk(fnode):
+        if not (isinstance(loop, ast.For) and isinstance(loop.iter, ast.Name) and loop.iter.id == values):
+            continue
+        incs = []
+        for n in ast.walk(loop):
+            if isinstance(n, ast.AugAssign) and isinstance(n.op, ast.Add) and isinstance(n.value, ast.Constant) and n.value.value == 1 \
+                    and isinstance(n.target, ast.Name):
+                incs.append(n.target.id)
+            if isinstance(n, ast.Assign) and isinstance(n.targets[0], ast.Name) and isinstance(n.value, ast.BinOp) and isinstance(n.value.op, ast.Add) \
+                    and unparse(n.value) in ("%s + 1" % n.targets[0].id, "1 + %s" % n.targets[0].id):
+                incs.append(n.targets[0].id)
+        for cvar in incs:
+            inits = [n for n in ast.walk(fnode) if isinstance(n, ast.Assign) and unparse(n.targets[0]) == cvar
+                     and not any(n is m for m in ast.walk(loop))]
+            used = any(isinstance(c, ast.Call) and call_name(c).endswith(".graph.add") and cvar in [y.id for y in ast.walk(c) if isinstance(y, ast.Name)]
+                       for c in ast.walk(loop)) or any(isinstance(n, ast.Assign) and cvar in [y.id for y in ast.walk(n.value) if isinstance(y, ast.Name)]
+                                                       and unparse(n.targets[0]) != cvar for n in ast.walk(loop))
+            if len(inits) == 1 and isinstance(inits[0].value, ast.Constant) and inits[0].value.value == 1 and incs.count(cvar) == 1 and used:
+                return True
+    return False
